@@ -490,6 +490,14 @@ func (k Keeper) MakeConsumerGenesis(
 			)
 		}
 
+		// a client can be the CCV client of at most one consumer chain
+		if existingConsumerId, found := k.GetClientIdToConsumerId(ctx, clientId); found && existingConsumerId != consumerId {
+			return gen, errorsmod.Wrapf(types.ErrInvalidConsumerClient,
+				"client(%s) of connection(%s) is already used by consumer chain with id(%s)",
+				clientId, initializationRecord.ConnectionId, existingConsumerId,
+			)
+		}
+
 		// set the counterparty connection ID
 		counterpartyConnectionId = connectionEnd.Counterparty.ConnectionId
 
